@@ -549,15 +549,14 @@ static std::vector<ClassEntry> classTable()
             ClassEntry e; e.name = "ResultSetQuery"; e.fieldNames = { "set" }; e.skipRootTag = "set";
             auto tv = [=](const QXmppResultSetQuery &q) { return Vals { vR({ vR({ optI(q.max()) }), optS(q.after()), optS(q.before()), vR({ optI(q.index()) }) }) }; };
             auto fv = [=](const Vals &v) { QXmppResultSetQuery q; if (v.at(0).kind == 'R') { auto &f = v.at(0).items; q.setMax(intOf(f.at(0))); q.setAfter(strOf(f.at(1))); q.setBefore(strOf(f.at(2))); q.setIndex(intOf(f.at(3))); } return q; };
-            e.run = [=](const QDomElement &el, QByteArray &out, Vals &vals) { QXmppResultSetQuery q; q.parse(el); g_outsideModel = q.max() < -1 || q.index() < -1; out = held(q); vals = tv(q); return true; };
+            e.run = [=](const QDomElement &el, QByteArray &out, Vals &vals) { QXmppResultSetQuery q; q.parse(el); out = held(q); vals = tv(q); return true; };
             e.build = [=](const Vals &v, Vals &rep) { auto q = fv(v); rep = tv(q); return held(q); };
             t.push_back(e);
         }
         {
             ClassEntry e; e.name = "ResultSetReply"; e.fieldNames = { "set" }; e.skipRootTag = "set";
             auto tv = [=](const QXmppResultSetReply &r) {
-                return r.isNull() ? Vals { vA() }
-                                  : Vals { vR({ (r.first().isNull() && r.index() < 0) ? vA() : vR({ optI(r.index()), vS(r.first()) }), optS(r.last()), vR({ optI(r.count()) }) }) };
+                return Vals { vR({ (r.first().isNull() && r.index() < 0) ? vA() : vR({ optI(r.index()), vS(r.first()) }), optS(r.last()), vR({ optI(r.count()) }) }) };
             };
             auto fv = [=](const Vals &v) {
                 QXmppResultSetReply r;
@@ -568,7 +567,7 @@ static std::vector<ClassEntry> classTable()
                 }
                 return r;
             };
-            e.run = [=](const QDomElement &el, QByteArray &out, Vals &vals) { QXmppResultSetReply r; r.parse(el); g_outsideModel = r.index() < -1 || r.count() < -1; out = held(r); vals = tv(r); return true; };
+            e.run = [=](const QDomElement &el, QByteArray &out, Vals &vals) { QXmppResultSetReply r; r.parse(el); out = held(r); vals = tv(r); return true; };
             e.build = [=](const Vals &v, Vals &rep) { auto r = fv(v); rep = tv(r); return held(r); };
             t.push_back(e);
         }
@@ -816,9 +815,9 @@ int main(int argc, char **argv)
     // (0) corpus: minimized documents of past oracle failures, first
     {
         static const char *CORPUS[][2] = {
-            // count read with toInt() and no fallback: "unset" comes back as 0 on the second pass
+            // count read with toInt() and no fallback: "unset" came back as 0 on the second pass (before /repo 4885fb5)
             { "ResultSetReply", "<x><set xmlns=\"http://jabber.org/protocol/rsm\"><first>a</first><count>-5</count></set></x>" },
-            // isNull() tests == -1, toXml tests >= 0: an empty <set/> is written, then nothing
+            // isNull() tested == -1, toXml tests >= 0: an empty <set/> was written, then nothing (before /repo 4885fb5)
             { "ResultSetQuery", "<x><set xmlns=\"http://jabber.org/protocol/rsm\"><index>-11</index></set></x>" },
             { "ResultSetReply", "<x><set xmlns=\"http://jabber.org/protocol/rsm\"><first index=\"-7\"/></set></x>" },
             // tls-0rtt dropped by toXml before /repo e3c2af8
